@@ -66,7 +66,10 @@ LEVEL_NOTE = ("The per-solver premises are now FULL theorems of the solver model
               "for any two of env/chol/gso (svd excluded: F7-svd), premises WorldHyp (on every configuration of the removal loop: "
               "m0 != 0, covariance invertible, the algorithm's first- and second-stage unambiguity) and 'same first removal' (what F7 violates). "
               "Hypotheses that stay: rank numerically unambiguous (as an exact gap of A'PA on the input: Props/C01/Gap.lean, Gap2.lean, "
-              "SvdGap.lean, InputGap.lean), WorldHyp for the removal loop (not yet one input-side hypothesis; not witnessed over R), "
+              "SvdGap.lean, InputGap.lean), WorldHyp for the removal loop - since round 13 needed only on the configurations reachable by "
+              "the removal loop (sub-configurations of the given network: C02_decision_agree_*_of_project_equations_reachable / "
+              "_subconfigurations, Props/C02ProjectEquationsReachable.lean; not yet one input-side hypothesis; over R witnessed on the "
+              "given configuration of Ex.netWobs only), "
               "convergence of the svd QR iteration (= Svd.decompose returns), IEEE rounding. That the absolute sqrt(eps) pivot tolerance of the envelope / cholesky kernels "
               "does not scale with the weights is known finding F22 (C09-F2, C10-TINY, C19-envelope-defect-undercount elsewhere): "
               "there the algorithms legitimately differ on the real code. 'Tolerance "
